@@ -22,7 +22,8 @@ EXTRA = ["(progn (setq h (make-hash-table)) (puthash 'k 1 h) (puthash \"s\" 2 h)
          "(sort '(3 1 2) '<)", "(let ((tb (make-hash-table))) (dolist (k '(a b c d e f g)) (puthash k k tb)) (mapcar (lambda (k) (gethash k tb)) '(g f e d c b a)))",
          "(defmacro shared-mac (x) (list 'list x x))", "(shared-mac 4)",
          "(progn (setq tb (make-hash-table)) (list (prin1-to-string tb) (format \"%s|%S\" tb (list 1 tb))))", "(prin1-to-string (list (make-hash-table) (make-hash-table)))",
-         "(format \"%S\" (lambda (x) x))", "(setq a 'set-before-error) (setq b 2) )", "(setq c 'first) (setq c (list c", "(setq a 7) (defmacro ms () (if (boundp 'a) ''was-set ''was-unset)) (ms)",
+         "(format \"%S\" (lambda (x) x))", "(defun max (&rest r) 'my-max)", "(max 1 2)", "(setq min 42)", "(list (boundp 'min) (min 3 4))", "(defmacro when (&rest b) ''hijacked)", "(when t 1)",
+         "(progn (defun car (x) 'my-car) (car '(1)))", "(setq list 'shadow)", "(list 1 2)", "(setq a 'set-before-error) (setq b 2) )", "(setq c 'first) (setq c (list c", "(setq a 7) (defmacro ms () (if (boundp 'a) ''was-set ''was-unset)) (ms)",
          "(setq b 1) (defmacro mb () (list 'quote b)) (setq b 2) (mb)", "(defun late () 'defined-at-read) (car 5) (setq a 'after-error)", "(setq a 'x) \"unterminated", "(prin 1)", "(progn (defun my-fa () 1) (defun my-fb () 2) (defun my-fc () 3) (defun my-fd () 4) (my-f))", "(ca '(1))", "(nosuchfn 1 2)", "(strin \"a\" \"b\")",
          "(let ((my-va 1) (my-vb 2)) my-v)", "(setq-x a 1)", "(gethas 1 (make-hash-table))",
          "(let ((h (make-hash-table)) (hits nil)) (dotimes (i 500) (puthash (concat \"key\" \"\") i h)) (dotimes (i 300) (if (gethash (concat \"key\" \"\") h) (setq hits (cons i hits)))) hits)", "(prin1-to-string (list 'car (make-symbol \"u\") (gensym)))",
